@@ -28,6 +28,8 @@ func (ex *Exec) bytesOf(v Value) []*Term {
 		return ex.sliceBytes(x)
 	case Str:
 		return x.b
+	case Rope:
+		return ex.pathTerms(x)
 	}
 	panic(unsupported(fmt.Sprintf("bytesOf %T", v)))
 }
